@@ -1,10 +1,11 @@
 SPECIFICATION Spec
-CONSTANTS Wirings = {"plain", "tunnel"} Kinds = {"basic", "cache", "tunnel"} MaxTasks = 2 MaxCaches = 1 MaxSocks = 1 MaxBoot = 1 MaxTry = 1 MaxXTask = 1 StoreAtOpen = TRUE
-          InitAwaited = FALSE UnloadRemovesPending = TRUE
+CONSTANTS Wirings = {"plain", "tunnel"} Kinds = {"basic", "cache", "tunnel"} MaxTasks = 3 MaxCaches = 1 MaxSocks = 2 MaxBoot = 1 MaxTry = 2 MaxXTask = 2 StoreAtOpen = TRUE
+          InitAwaited = TRUE UnloadRemovesPending = TRUE
           WrapperForwardsRemove = TRUE CryptoListenerRemoved = TRUE RemovalAwaited = TRUE
 INVARIANT TypeOK
 INVARIANT LoadedReachable
 INVARIANT SilentAfterUnload
 INVARIANT NoLateActivity
 INVARIANT JobsHeld
+INVARIANT NoOrphanSocket
 PROPERTY NoNewTaskAfterUnload
